@@ -257,6 +257,8 @@ pub struct Inner {
     pub root_stage: String,
     pub phase: usize,
     pub final_stage: bool,
+    /// the case injects a panic: callers may stay blocked forever on the panicked object and keep handles alive
+    pub panic_case: bool,
 }
 
 pub struct World {
